@@ -32,7 +32,11 @@ module Z :
 
   val eqb : coq_Z -> coq_Z -> bool
 
+  val abs : coq_Z -> coq_Z
+
   val to_nat : coq_Z -> nat
+
+  val to_N : coq_Z -> coq_N
 
   val of_nat : nat -> coq_Z
 
